@@ -180,7 +180,7 @@ theorem levels_supp (h : dddmpHeader f = .ok (i2p, levels, roots))
     exact List.mem_of_getElem? (List.getElem?_zip_eq_some.mpr ⟨hj, List.getElem?_eq_getElem hjl⟩)
   have hm : (sortInts permids).mapM (dddmpLevelItem (permids.zip sv)) =
       .ok ((sortInts permids).map fun k => (vo k, k)) := by
-    apply mapM_ok
+    apply dddmp_mapM_ok
     intro k hk
     obtain ⟨_, var, _, _, hg⟩ := hvo k (hsp.mem_iff.mp hk)
     simp [dddmpLevelItem, vo, hg]
